@@ -45,8 +45,8 @@ from . import sources as S  # noqa: E402
 
 warnings.filterwarnings("ignore")
 
-PL_TYPES = {"int": pl.Int64, "bool": pl.Boolean, "str": pl.String, "float": pl.Float64}
-PDT_TYPES = {"int": pdt.Int64, "bool": pdt.Bool, "str": pdt.String, "float": pdt.Float64}
+PL_TYPES = {"int": pl.Int64, "bool": pl.Boolean, "str": pl.String, "float": pl.Float64, "date": pl.Date, "datetime": pl.Datetime("us")}
+PDT_TYPES = {"int": pdt.Int64, "bool": pdt.Bool, "str": pdt.String, "float": pdt.Float64, "date": pdt.Date, "datetime": pdt.Datetime}
 
 
 def assert_repo_import():
@@ -66,6 +66,12 @@ def source_frame(src: dict) -> pl.DataFrame:
     names = [n for n, _ in src["cols"]]
     schema = {n: PL_TYPES[t] for n, t in src["cols"]}
     def conv(v):
+        import datetime as _dt
+
+        if isinstance(v, tuple) and v and v[0] == "date":
+            return _dt.date(*v[1:])
+        if isinstance(v, tuple) and v and v[0] == "dt":
+            return _dt.datetime(*v[1:])
         return v[0] / v[1] if isinstance(v, tuple) else v
 
     cols = {n: [conv(row[i]) for row in src["rows"]] for i, n in enumerate(names)}
@@ -121,8 +127,18 @@ def lit_value(e):
     v = e["v"]
     if v == "NULL":
         return None
-    if isinstance(v, dict):
+    if isinstance(v, dict) and "n" in v:
         return v["n"] / v["d"]
+    if e.get("ty") == "str" and isinstance(v, list):
+        return "".join(chr(c) for c in v)
+    if e.get("ty") == "date":
+        import datetime as _dt
+
+        return _dt.date(v["y"], v["m"], v["d"])
+    if e.get("ty") == "datetime":
+        import datetime as _dt
+
+        return _dt.datetime(v["y"], v["m"], v["d"], v["H"], v["M"], v["S"], v["us"])
     return v
 
 
@@ -201,9 +217,15 @@ class ExprBuilder:
             return self.build(e["e"], top=True).cast(PDT_TYPES[e["to"]]())
         if k == "case":
             cs = e["cs"]
-            expr = pdt.when(self.build(cs[0]["c"], top=True)).then(self.build(cs[0]["v"]))
-            for c in cs[1:]:
-                expr = expr.when(self.build(c["c"], top=True)).then(self.build(c["v"]))
+            if self.pool is not None and len(cs) >= 2:
+                # extend the (shared, pooled) object of the shorter case expression, as a user who keeps
+                # `first = when(c1).then(v1)` around and derives several expressions from it would
+                expr = self.build(dict(e, cs=cs[:-1], d=[]), top=True)
+                expr = expr.when(self.build(cs[-1]["c"], top=True)).then(self.build(cs[-1]["v"]))
+            else:
+                expr = pdt.when(self.build(cs[0]["c"], top=True)).then(self.build(cs[0]["v"]))
+                for c in cs[1:]:
+                    expr = expr.when(self.build(c["c"], top=True)).then(self.build(c["v"]))
             if e["d"]:
                 expr = expr.otherwise(self.build(e["d"][0]))
             return expr
@@ -270,6 +292,16 @@ class ExprBuilder:
             return ~a[0]
         if op in ("abs", "floor", "ceil", "is_null", "is_not_null"):
             return getattr(a[0], op)()
+        if op == "str_starts_with":
+            return a[0].str.starts_with(a[1])
+        if op == "str_ends_with":
+            return a[0].str.ends_with(a[1])
+        if op == "str_contains":
+            return a[0].str.contains(a[1], allow_regex=False)
+        if op == "str_replace_all":
+            return a[0].str.replace_all(a[1], a[2])
+        if op == "str_len":
+            return a[0].str.len()
         if op == "fill_null":
             return a[0].fill_null(a[1])
         if op == "is_in":
